@@ -45,6 +45,8 @@ const (
 	knownTruncID   = "C16-truncated-utf8-hang"
 	knownNamesID   = "C16-truncated-utf8-hang-css-names"
 	knownBrowserID = "C16-browser-map-recursion"
+	knownSideFxID  = "C16-sideeffects-regexp-panic"
+	knownStaticID  = "C16-static-block-in-object-literal"
 	watchdogWall   = 10 * time.Second // in-process suspicion threshold (≥100× the normal time of a ≤64 KB input)
 	hangCPU        = 20 * time.Second // CPU time of a fresh child after which the call counts as not terminating
 	hangWall       = 600 * time.Second
@@ -380,11 +382,12 @@ func scanMsgs(res *coreResult, errs, warns []api.Message) {
 	}
 }
 
+// clip shortens a text and makes it valid UTF-8 (messages may quote raw input bytes; the shard logs are read as text).
 func clip(s string, n int) string {
 	if len(s) > n {
-		return s[:n] + "…"
+		s = s[:n] + "…"
 	}
-	return s
+	return strings.ToValidUTF8(s, "\uFFFD")
 }
 
 // protect runs f and converts an escaping panic into a result.
@@ -643,9 +646,25 @@ func browserMapSelfReference(c BCase) bool {
 	return false
 }
 
+var loneSurrogateRe = regexp.MustCompile(`(?i)\\ud[89a-f][0-9a-f]{2}`)
+
+// sideEffectsNotUTF8: a package.json mentions "sideEffects" and contains a lone-surrogate escape or bytes that are
+// not valid UTF-8: such a string becomes a glob pattern that regexp.MustCompile refuses.
+func sideEffectsNotUTF8(c BCase) bool {
+	for p, b := range c.Files {
+		if strings.HasSuffix(p, "package.json") && bytes.Contains(b, []byte(`sideEffects`)) && (!utf8.Valid(b) || loneSurrogateRe.Match(b)) {
+			return true
+		}
+	}
+	return false
+}
+
 func bcaseKnownID(c BCase) string {
 	if browserMapSelfReference(c) {
 		return knownBrowserID
+	}
+	if sideEffectsNotUTF8(c) {
+		return knownSideFxID
 	}
 	if bits(c.Opt, bSourcemap, 2) == 0 || bit(c.Opt, bNoSrcCont) {
 		return ""
@@ -653,6 +672,26 @@ func bcaseKnownID(c BCase) string {
 	for _, b := range c.Files {
 		if truncatedTail(b) {
 			return knownTruncID
+		}
+	}
+	return ""
+}
+
+var staticBlockRe = regexp.MustCompile(`\bstatic\s*\{`)
+
+// knownAfterTheFact matches a failure that did happen against the signatures of listed findings that are
+// recognised by (input shape, message) rather than excluded before execution.
+func knownAfterTheFact(sub string, raw []byte, res coreResult) string {
+	if strings.Contains(res.BadMsg, "Unexpected expression of type <nil>") || strings.Contains(res.Panic, "Unexpected expression of type <nil>") {
+		b := caseBytes(sub, raw)
+		if sub == "config" || sub == "fuzzconfig" {
+			var c BCase
+			if json.Unmarshal(raw, &c) == nil {
+				b = c.Files["src.ts"]
+			}
+		}
+		if staticBlockRe.Match(b) {
+			return knownStaticID
 		}
 	}
 	return ""
@@ -855,12 +894,22 @@ func runChild(sub string, raw []byte, cpuBound, wallBound time.Duration) childOu
 	cmd.Env = append(os.Environ(), "VERIF_C16_ROLE=child", "VERIF_C16_CASEFILE="+cf, "TMPDIR="+dir)
 	var out bytes.Buffer
 	cmd.Stdout, cmd.Stderr = &out, &out
-	cmd.SysProcAttr = &syscall.SysProcAttr{Setpgid: true}
+	// The child stays in the process group of the shard (the driver kills that group when it gives up), gets
+	// SIGKILL when this process dies, and limits its own CPU time (see TestChild): a child that spins inside
+	// esbuild must never outlive the run, whatever happens to its parent.
+	cmd.SysProcAttr = &syscall.SysProcAttr{Pdeathsig: syscall.SIGKILL}
 	if err := cmd.Start(); err != nil {
 		return childOutcome{Kind: "inconclusive", Output: err.Error()}
 	}
 	waitCh := make(chan error, 1)
 	go func() { waitCh <- cmd.Wait() }()
+	reaped := false
+	defer func() {
+		if !reaped {
+			cmd.Process.Kill()
+			<-waitCh
+		}
+	}()
 	start := time.Now()
 	tick := time.NewTicker(50 * time.Millisecond)
 	defer tick.Stop()
@@ -868,6 +917,7 @@ func runChild(sub string, raw []byte, cpuBound, wallBound time.Duration) childOu
 	for {
 		select {
 		case werr := <-waitCh:
+			reaped = true
 			if ps := cmd.ProcessState; ps != nil {
 				cpu = ps.UserTime() + ps.SystemTime()
 			}
@@ -892,8 +942,9 @@ func runChild(sub string, raw []byte, cpuBound, wallBound time.Duration) childOu
 				cpu = c
 			}
 			if cpu >= cpuBound || time.Since(start) >= wallBound {
-				syscall.Kill(-cmd.Process.Pid, syscall.SIGKILL)
+				cmd.Process.Kill()
 				<-waitCh
+				reaped = true
 				if cpu >= cpuBound {
 					return childOutcome{Kind: "hang", CPU: cpu}
 				}
@@ -908,6 +959,10 @@ func TestChild(t *testing.T) {
 	if role() != "child" {
 		t.Skip("child role only")
 	}
+	// Self-destruct: the kernel kills this process after 90 s of CPU time, and a timer after 15 minutes of wall
+	// time, even if the parent that is supposed to enforce the (much smaller) bounds has been killed.
+	syscall.Setrlimit(syscall.RLIMIT_CPU, &syscall.Rlimit{Cur: 90, Max: 95})
+	time.AfterFunc(15*time.Minute, func() { os.Exit(3) })
 	b, err := os.ReadFile(os.Getenv("VERIF_C16_CASEFILE"))
 	if err != nil {
 		t.Fatalf("INFRA: %v", err)
@@ -1229,7 +1284,13 @@ func judge(sub string, c interface{}, classes []string, nontrivial bool) vdrv.Ve
 	journal(sub, raw)
 	res, done, wait := watched(sub, raw, watchdogWall)
 	if done {
-		return verdictOf(sub, res, classes, nontrivial)
+		v := verdictOf(sub, res, classes, nontrivial)
+		if !v.OK {
+			if id := knownAfterTheFact(sub, raw, res); id != "" && knownActive(id) {
+				v.Known = id
+			}
+		}
+		return v
 	}
 	fmt.Printf("C16: case of sub %s still running after %v; re-running it in fresh processes: %s\n", sub, watchdogWall, clip(string(raw), 700))
 	sv := triageSlow(sub, raw)
@@ -1276,11 +1337,42 @@ func hash32(b []byte) uint32 {
 
 // ----------------------------------------------------------------------------- replays
 
-var replayCPU = replayCPUQuick
+var (
+	fullReplayBound bool // TestReplay: always the full bound
+	knownCaseOnce   sync.Once
+	knownCases      = map[string]bool{}
+)
+
+// replayBound: the replay of a finding that is listed as `known` (not yet fixed) is expected to fail, possibly by
+// not terminating; inside TestCheck it gets a short CPU bound so that a listed hang does not cost 20 s of every
+// quick run. Every other replay must pass and gets the full bound.
+func replayBound(raw []byte) time.Duration {
+	if fullReplayBound {
+		return hangCPU
+	}
+	knownCaseOnce.Do(func() {
+		for _, k := range vdrv.KnownFindings() {
+			if k.Property == "C16" && k.Status == "known" && k.Replay != "" {
+				if r, err := vdrv.LoadReplay(filepath.Join(vdrv.Root(), k.Replay)); err == nil {
+					var buf bytes.Buffer
+					if json.Compact(&buf, r.Case) == nil {
+						knownCases[buf.String()] = true
+					}
+				}
+			}
+		}
+	})
+	var buf bytes.Buffer
+	if json.Compact(&buf, raw) == nil && knownCases[buf.String()] {
+		return replayCPUQuick
+	}
+	return hangCPU
+}
 
 // replayInChild judges a stored case in a fresh process (a stored case may be a hang).
 func replayInChild(sub string) vdrv.ReplayFunc {
 	return func(raw json.RawMessage) vdrv.Verdict {
+		replayCPU := replayBound(raw)
 		o := runChild(sub, raw, replayCPU, hangWall)
 		switch o.Kind {
 		case "verdict":
@@ -1422,7 +1514,7 @@ func TestCheck(t *testing.T) {
 
 func TestReplay(t *testing.T) {
 	H = vdrv.New("C16")
-	replayCPU = hangCPU
+	fullReplayBound = true
 	H.ReplayOne(t, subs)
 }
 
